@@ -122,6 +122,18 @@ def grouping(ctx) -> None:
                     continue
                 want = "sources" if mode == "source" else "destinations"
                 ok = False
+                rk = _regex_key(fv, f, val)
+                if rk is not None:
+                    wterm, verdict, why = rk
+                    ep = elem_parts(wterm)
+                    right_well = ep is not None and ep[0] == loopid and is_name(strip_norm(ep[1]), want)
+                    seen[mode] = bool(verdict and right_well)
+                    if verdict is None:
+                        ctx.rep.inconclusive(rule, f"{f.qualname}/key[{mode}]", why, where=f.where(cs.call))
+                    else:
+                        ctx.rep.check(bool(verdict and right_well), rule, f"{f.qualname}/key[{mode}]", f"group key = column number of the {mode} well",
+                                      why if not verdict else f"under partition_by={mode!r} the key is taken from `{show(wterm)[:40]}`, not from the {mode} well", where=f.where(cs.call))
+                    continue
                 if isinstance(val, ast.Subscript) and isinstance(val.slice, ast.Slice):
                     ep = elem_parts(val.value)
                     sl = val.slice
@@ -173,6 +185,58 @@ def _mode_raises(ctx, rule, fv, f, body, what) -> None:
         if any(isinstance(a.expr, ast.Compare) and is_name(a.expr.left, _pb()) for a in term):
             ok = True
     ctx.rep.check(ok, rule, f"{f.qualname}/{what}-else-raises", "any other mode name raises ValueError", f"an unknown partition_by value is not rejected with ValueError in the {what} loop", where=f.where())
+
+
+def _regex_key(fv, f, val: ast.AST):
+    """key = [int(] <pattern>.match(<well>).group(<g>) [)]  ->  (well term, True/False/None, explanation)
+    True: the group captures the complete column number (all digits up to the end of the ID)."""
+    core = val
+    while isinstance(core, ast.Call) and call_fname(core) in ("int", "str") and len(core.args) == 1:
+        core = core.args[0]
+    if not (isinstance(core, ast.Call) and call_fname(core) == "group" and isinstance(core.func, ast.Attribute) and len(core.args) == 1 and isinstance(core.args[0], ast.Constant)):
+        return None
+    m = core.func.value
+    if not (isinstance(m, ast.Call) and call_fname(m) in ("match", "fullmatch", "search") and isinstance(m.func, ast.Attribute)):
+        return None
+    pat_e = m.func.value
+    if isinstance(pat_e, ast.Name) and pat_e.id in ("re", "regex"):
+        if len(m.args) != 2:
+            return None
+        pat_c, wterm = m.args[0], m.args[1]
+    else:
+        if len(m.args) != 1:
+            return None
+        wterm = m.args[0]
+        pat_c = pat_e
+        if isinstance(pat_e, ast.Name):
+            d_ = f.module.assigns.get(pat_e.id)
+            pat_c = d_.args[0] if isinstance(d_, ast.Call) and call_fname(d_) == "compile" and d_.args else None
+    if not (isinstance(pat_c, ast.Constant) and isinstance(pat_c.value, str)):
+        return wterm, None, "cannot read the pattern the group key is extracted with"
+    import re._parser as sre_parse  # stdlib regex parser (syntax tree only; nothing is matched)
+    import re._constants as sre_c
+
+    try:
+        tree = sre_parse.parse(pat_c.value)
+    except Exception as e:  # noqa: BLE001
+        return wterm, None, f"pattern `{pat_c.value}` does not parse: {e}"
+    gsel = core.args[0].value
+    gnum = tree.state.groupdict.get(gsel) if isinstance(gsel, str) else gsel
+    items = list(tree)
+    for i, (op, av) in enumerate(items):
+        if op is sre_c.SUBPATTERN and av[0] == gnum:
+            inner = list(av[3])
+            unbounded_digits = len(inner) == 1 and inner[0][0] in (sre_c.MAX_REPEAT, sre_c.MIN_REPEAT) and inner[0][1][0] >= 1 and inner[0][1][1] == sre_c.MAXREPEAT \
+                and list(inner[0][1][2]) in ([(sre_c.IN, [(sre_c.CATEGORY, sre_c.CATEGORY_DIGIT)])], [(sre_c.IN, [(sre_c.RANGE, (48, 57))])])
+            rest = items[i + 1:]
+            to_end = all(op2 is sre_c.AT for op2, _ in rest)
+            greedy = inner and inner[0][0] is sre_c.MAX_REPEAT
+            if unbounded_digits and (greedy or to_end):
+                # leading zeros may be skipped before the group; anything else in front must not eat digits of the column
+                return wterm, True, "the column group captures all digits of the column number"
+            return wterm, False, (f"the group key is the regex group `{gsel}` of `{pat_c.value}`, which does not capture the complete column number "
+                                  "(a single / bounded number of digits): columns that share their leading digit(s) fall into one group (A01 and A12)")
+    return wterm, None, f"group `{gsel}` not found at the top level of `{pat_c.value}`"
 
 
 def sorting(ctx) -> None:
